@@ -114,8 +114,15 @@ func (l *listener) listenLoop() {
 				conn := newStreamWrapper(stream, stream.LocalAddr(), stream.RemoteAddr(), wg)
 				select {
 				case <-l.closeCh:
+					// never handed to Accept: release its reference, otherwise the session can never end
+					_ = conn.Close()
 					return
 				case l.backlog <- conn:
+					if atomic.LoadUint32(&l.closed) == 1 {
+						// the listener was closed meanwhile and nobody will accept from the backlog any more
+						l.drainBacklog()
+						return
+					}
 				}
 			}
 		}()
@@ -143,6 +150,8 @@ func (l *listener) Close() (err error) {
 	if swapped {
 		close(l.closeCh)
 	}
+	// connections that were queued but never accepted can not be closed by anybody else
+	l.drainBacklog()
 	// closed and clear sessions to avoid leaking
 	l.mu.Lock()
 	for _, wg := range l.sessions {
@@ -151,6 +160,18 @@ func (l *listener) Close() (err error) {
 	l.sessions = map[*Session]*sync.WaitGroup{}
 	l.mu.Unlock()
 	return
+}
+
+// drainBacklog closes the connections that are still waiting to be accepted.
+func (l *listener) drainBacklog() {
+	for {
+		select {
+		case conn := <-l.backlog:
+			_ = conn.Close()
+		default:
+			return
+		}
+	}
 }
 
 // Addr is forwarded to the raw listener
